@@ -397,15 +397,7 @@ def source_variant():
     if len({k for _, k in kept}) != 1:
         raise TranslatorError("the stages of resolve_gates treat the classical condition differently: "
                               + ", ".join(f"{w}: {'kept' if k else 'dropped'}" for w, k in kept))
-    qc = QubitCircuit(1)
-    qc.add_gate("S", targets=0)
-    try:
-        qc.resolve_gates("CSIGN")
-        exact = False
-    except NotImplementedError:
-        exact = True
-    except Exception as e:
-        raise TranslatorError(f"variant probe string basis: {type(e).__name__}: {e}")
+    exact = decomp.string_basis_exact()
     return kept[0][1], exact
 
 
